@@ -304,6 +304,8 @@ fn c01(tier: Tier) -> i32 {
         c.add_all_keys(&[Flavour::TdString, Flavour::Td], &[Num::I(0)], 1);
         cases.push(c);
     }
+    // tag look-alikes in front of a component: nothing of the text around them is dropped
+    cases.push(tags_case_for("c01", tier));
     if tier == Tier::Thorough {
         // 17 locales: EitherOfWrapper nesting in the generated match
         let locs = ["en", "fr", "de", "it", "es", "pt", "nl", "sv", "da", "fi", "pl", "cs", "ru", "uk", "ja", "ko", "zh"];
@@ -392,6 +394,12 @@ pub fn kinds_entries(loc: &str, ns: &str) -> Vec<(String, Val)> {
     e.push(("fk_args".into(), s(vec![fk_args(&fkp("range"), vec![("count", FkArg::Str(vec![var("n")])), ("x", FkArg::Str(vec![text("X")]))])])));
     e.push(("fk_lit".into(), s(vec![fk_args(&fkp("plu"), vec![("count", FkArg::UInt(1))])])));
     e.push(("g".into(), Val::Sub(vec![("h".into(), Val::Sub(leafs("g.h."))), ("top".into(), st(&t("g.top")))])));
+    // literal segments that are nothing but blanks: between two variables, between two components, between a reference
+    // and a variable, at both ends of a value (every flavour writes them)
+    e.push(("ws_vars".into(), s(vec![var("first"), text(" "), var("last")])));
+    e.push(("ws_comps".into(), s(vec![comp("b", vec![text(&t("ws.b"))]), text("  "), comp("i", vec![var("x")])])));
+    e.push(("ws_fk".into(), s(vec![fk(&fkp("lit")), text(" "), var("owner"), text("\t")])));
+    e.push(("ws_ends".into(), s(vec![text(" "), var("x"), text(" ")])));
     // long values: the view back-end nests more than 26 segments into sub-tuples, the string back-end does not
     for n in [26usize, 27, 29, 53] {
         let mut segs = vec![];
@@ -1058,7 +1066,11 @@ fn c17(tier: Tier, pid: &str) -> i32 {
     let mut n_pages = 0u64;
     // project A: namespaces; project B: no namespaces
     for namespaced in [true, false] {
-        let mut cfg = Config::simple("en", &["en", "fr"]);
+        // (the flat project names its second locale in a spelling that is not the canonical one: the name a unit is
+        // embedded under is the configured name)
+        let l2 = if namespaced { "fr" } else { "pt-br" };
+        let units: Vec<(&str, &str)> = units.iter().map(|(l, n)| (if *l == "fr" { l2 } else { *l }, *n)).collect();
+        let mut cfg = Config::simple("en", &["en", l2]);
         if namespaced {
             cfg = cfg.with_namespaces(&["one", "two"]);
         }
@@ -1071,7 +1083,7 @@ fn c17(tier: Tier, pid: &str) -> i32 {
             let chunk: Vec<String> = strings.iter().skip(if namespaced { ui * per_file } else { (ui / 2) * 2 * per_file }).take(if namespaced { per_file } else { 2 * per_file }).cloned().collect();
             let mut e: Vec<(String, Val)> = chunk.iter().enumerate().map(|(i, sv)| (format!("s{i:03}"), st(sv))).collect();
             // the same key set in both locales (fr holds the en strings reversed) + an interpolation
-            if *loc == "fr" {
+            if *loc == l2 {
                 let vals: Vec<Val> = e.iter().rev().map(|(_, v)| v.clone()).collect();
                 for (i, v) in vals.into_iter().enumerate() {
                     e[i].1 = v;
@@ -1140,7 +1152,7 @@ fn c17(tier: Tier, pid: &str) -> i32 {
         let k1 = if namespaced { "one.greet" } else { "greet" };
         let k2 = if namespaced { "two.s001" } else { "s001" };
         c.add(
-            format!("render_page(move || {{ let i18n = use_i18n(); let _ = futures::executor::block_on(async {{ t_string!(i18n, {k1}, x = \"v\").await.to_string() }}); i18n.set_locale(Locale::fr); let _ = futures::executor::block_on(async {{ t_string!(i18n, {k2}).await.to_string() }}); }})"),
+            format!("render_page(move || {{ let i18n = use_i18n(); let _ = futures::executor::block_on(async {{ t_string!(i18n, {k1}, x = \"v\").await.to_string() }}); i18n.set_locale({}); let _ = futures::executor::block_on(async {{ t_string!(i18n, {k2}).await.to_string() }}); }})", locale_variant(l2)),
             format!("PAGE switch en:{k1} -> fr:{k2}"),
             String::new(),
         );
@@ -1244,7 +1256,21 @@ fn c17(tier: Tier, pid: &str) -> i32 {
     // run
     let mut plain_cases = vec![];
     let mut metas = vec![];
-    for (c, tables, namespaced) in cases {
+    for (mut c, tables, namespaced) in cases {
+        // what the client makes of each exported table: the payload of the server function read back through the
+        // library's own client-side type (the reader of the server-fn answer in hydrate mode and of the build helper's
+        // files in csr mode)
+        let table_ids: Vec<(usize, String)> = c.expected.iter().filter(|(_, e)| e.what.starts_with("TABLE ")).map(|(id, e)| (*id, e.what.clone())).collect();
+        for (id, what) in table_ids {
+            let head = format!("p({id}, ");
+            let Some(stmt) = c.probe.stmts.iter().find(|st| st.starts_with(&head)).cloned() else { continue };
+            let expr = stmt[head.len()..].trim_end_matches(");").to_string();
+            c.add(
+                format!("{{ let payload: String = {expr}; match serde_json::from_str::<leptos_i18n::__private::fetch_translations::LocaleServerFnOutputClient>(&payload) {{ Ok(t) => serde_json::to_string(&t.0).unwrap(), Err(e) => format!(\"CLIENT DECODE ERROR: {{e}}\") }} }}"),
+                what.replacen("TABLE ", "CLIENT ", 1),
+                String::new(),
+            );
+        }
         metas.push((c.probe.name.clone(), c.expected.iter().map(|(k, v)| (*k, v.what.clone())).collect::<BTreeMap<_, _>>(), tables, namespaced));
         // expectations are judged below, not by `execute`
         plain_cases.push(Case { probe: c.probe, expected: BTreeMap::new(), next_id: c.next_id });
@@ -1274,6 +1300,19 @@ fn c17(tier: Tier, pid: &str) -> i32 {
             }
         }
         for (id, what) in &whats {
+            if let Some(rest) = what.strip_prefix("CLIENT ") {
+                rep.eval(1);
+                let (loc, ns) = rest.split_once(' ').unwrap();
+                let got = records.get(id).cloned().unwrap_or_default();
+                let decoded = serde_json::from_str::<Vec<String>>(&got).ok();
+                if let Some(t) = exported.get(&(loc.to_string(), ns.to_string())) {
+                    if decoded.as_ref() != Some(t) {
+                        rep.violation(format!("{pid}/L3: the client-side reader (LocaleServerFnOutputClient) of the table of ({loc},{ns}) gives {} instead of the exported table", vmodel::report::truncate(&got, 200)), json!({}));
+                    }
+                }
+            }
+        }
+        for (id, what) in &whats {
             if let Some(ns) = what.strip_prefix("UNITID ") {
                 rep.eval(1);
                 let want = format!("\"{ns}\" true");
@@ -1298,7 +1337,7 @@ fn c17(tier: Tier, pid: &str) -> i32 {
             }
             if desc.starts_with("switch") {
                 want_units.insert(("en".into(), "one".into()));
-                want_units.insert(("fr".into(), if namespaced { "two".into() } else { "one".into() }));
+                want_units.insert((if namespaced { "fr" } else { "pt-br" }.into(), if namespaced { "two".into() } else { "one".into() }));
             }
             match jslit::extract_and_decode(html) {
                 Err(e) => rep.violation(
@@ -1332,7 +1371,7 @@ fn c17(tier: Tier, pid: &str) -> i32 {
     rep.nontriv(n_pages);
     rep.sample(json!({"strings": ["\"\\", "</script>", "he said \"hi\" \\ </script> end", "\u{2028}a"]}));
     let mut cov = serde_json::Map::new();
-    cov.insert("rule".into(), json!("two probe crates built with dynamic_load + ssr (two namespaces x two locales; no namespaces): translation strings = all 196 two-character strings over 14 hostile characters plus </script>, </SCRIPT , <!--, -->, ]]>, U+2029, quotes, backtick, ${x}, newlines alone and inside a sentence with quotes and backslashes, and every sequence of <= 2 (thorough 3) tokens over <!--, <script>, <script , </script>, -->, <!-->, x; pages = <I18nContextProvider> rendered natively to HTML for every ordered subset of touched units (65 with namespaces, 5 without) and a context-driven render with a locale switch in the middle; third probe crate: every such token sequence of <= 2 tokens (+ a trailing x; thorough <= 3) alone in a namespace of its own, one page per namespace, plus two namespaces whose values are variables only (empty string tables) rendered alone, before / after another unit and both together with a third unit in three orders (an empty table is then never the last unit written), every page of <= 2 units also walked once with dry_resolve() before rendering (what a streamed render does below a Suspense boundary), and with the units read eagerly - while the provider's children are built, as a t_string! in a component body does - and with the first unit eager and the rest lazy, and a namespace whose name (`dash-ns`) differs from its Rust identifier; oracle: the <script> element is cut the way the WHATWG tokenizer cuts it (script data / escaped / double escaped states: after `<!--` then `<script` an end tag no longer closes the element), every script element of the page is evaluated in document order - each body must be `window.__LEPTOS_I18N_TRANSLATIONS = <array literal>;` and the value of the last one is what the client finds -, it is read by an ECMAScript literal reader (all JS escapes, no raw line terminators in strings), and its decoded value must list exactly the touched (locale, unit) pairs, each with the unit's table as exported by the generated server function"));
+    cov.insert("rule".into(), json!("two probe crates built with dynamic_load + ssr (two namespaces x two locales; no namespaces): translation strings = all 196 two-character strings over 14 hostile characters plus </script>, </SCRIPT , <!--, -->, ]]>, U+2029, quotes, backtick, ${x}, newlines alone and inside a sentence with quotes and backslashes, and every sequence of <= 2 (thorough 3) tokens over <!--, <script>, <script , </script>, -->, <!-->, x; pages = <I18nContextProvider> rendered natively to HTML for every ordered subset of touched units (65 with namespaces, 5 without) and a context-driven render with a locale switch in the middle; third probe crate: every such token sequence of <= 2 tokens (+ a trailing x; thorough <= 3) alone in a namespace of its own, one page per namespace, plus two namespaces whose values are variables only (empty string tables) rendered alone, before / after another unit and both together with a third unit in three orders (an empty table is then never the last unit written), every page of <= 2 units also walked once with dry_resolve() before rendering (what a streamed render does below a Suspense boundary), and with the units read eagerly - while the provider's children are built, as a t_string! in a component body does - and with the first unit eager and the rest lazy, and a namespace whose name (`dash-ns`) differs from its Rust identifier; oracle: the <script> element is cut the way the WHATWG tokenizer cuts it (script data / escaped / double escaped states: after `<!--` then `<script` an end tag no longer closes the element), every script element of the page is evaluated in document order - each body must be `window.__LEPTOS_I18N_TRANSLATIONS = <array literal>;` and the value of the last one is what the client finds -, it is read by an ECMAScript literal reader (all JS escapes, no raw line terminators in strings), and its decoded value must list exactly the touched (locale, unit) pairs, each with the unit's table as exported by the generated server function; each exported table, serialised as the server function's answer, is read back through the library's client-side type LocaleServerFnOutputClient and must be the same list"));
     cov.insert("exhaustive".into(), json!(true));
     rep.finish(cov, &["the hydrate-side consumer (init_translations, serde_wasm_bindgen) needs a browser: not executed"])
 }
@@ -1585,7 +1624,8 @@ fn c18(tier: Tier) -> i32 {
     let cases = all_cases();
     // locales: fr-CA holds explicit nulls: it renders fr's declarations with fr-CA's formatting
     // (bn: a locale whose default digits are not the Latin ones - no number, however small, is locale independent)
-    let locales = ["en", "fr", "de", "ja", "ar", "bn", "fr-CA"];
+    // (en-GB next to en: one language, other list patterns and date orders - formatters are per locale, not per language)
+    let locales = ["en", "fr", "de", "ja", "ar", "bn", "fr-CA", "en-GB"];
     let mut cfg = Config::simple("en", &locales);
     cfg.inherits = vec![("fr-CA".into(), "fr".into())];
     let mut p = Project::new(cfg);
@@ -1633,7 +1673,10 @@ fn c18(tier: Tier) -> i32 {
         for (j, fc) in chunk.iter().enumerate() {
             let i = ci * per + j;
             let early = fam_idx[i] < 2;
-            for l in locales {
+            // (every other declaration meets the locales in the reverse order: which of two locales of one language
+            // builds its formatter first must not matter)
+            let order: Vec<&str> = if i % 2 == 1 { locales.iter().rev().copied().collect() } else { locales.to_vec() };
+            for l in order {
                 let lv = locale_variant(l);
                 let src = if l == "fr-CA" { "fr" } else { l };
                 let values: Vec<(String, String, String)> = match fc.family {
@@ -2317,6 +2360,54 @@ fn rename_fk(v: &Val, rename: &dyn Fn(&str) -> String) -> Val {
 }
 
 /// C07 / C08: what compiles and what does not
+/// text that looks like a tag but is not one (`<br>`, `<br/>`, `<a href="x">`, `1 < 2`), none / one / two / three of
+/// them before, between and after real components, with ASCII and multi-byte text around: the components are found
+/// and nothing else of the text is lost
+fn tags_case_for(prefix: &str, tier: Tier) -> Case {
+    let mut values: Vec<(String, String, String)> = vec![
+        ("t0".into(), "1 < 2 et 3 > 2 <b>x</b>".into(), "1 < 2 et 3 > 2 <b>x</b>".into()),
+        ("t1".into(), "<br/> then <b>x</b>".into(), "<br/> then <b>x</b>".into()),
+        ("t2".into(), "<a href=\\\"x\\\"> then <b>x</b>".into(), "<a href=\"x\"> then <b>x</b>".into()),
+        ("t3".into(), "</x> then <b>x</b> end".into(), "</x> then <b>x</b> end".into()),
+        ("t4".into(), "a <1> b <b>x</b>".into(), "a <1> b <b>x</b>".into()),
+        ("t5".into(), "<b>x</b> then 1 < 2".into(), "<b>x</b> then 1 < 2".into()),
+    ];
+    let alikes = ["<br>", "<hr/>", "<p>"];
+    let texts = ["line", "l\u{e9}g\u{e8}re \u{1f600}"];
+    let mut k = 0;
+    for n in 0..=3usize {
+        for t in texts {
+            // n look-alikes before the component, one after it
+            let mut v = String::new();
+            for i in 0..n {
+                v.push_str(&format!("{t} {i}{}", alikes[i % alikes.len()]));
+            }
+            v.push_str(&format!("{t} last, <b>bold {t}</b> end {t}<br>tail"));
+            values.push((format!("u{k}"), v.clone(), v));
+            k += 1;
+            // .. and between two components
+            let mut w = format!("<b>{t}</b>");
+            for i in 0..n {
+                w.push_str(&format!(" {i}{}", alikes[(i + 1) % alikes.len()]));
+            }
+            w.push_str(&format!(" {t} <b>second</b>"));
+            values.push((format!("u{k}"), w.clone(), w));
+            k += 1;
+        }
+    }
+    let mut tp = Project::new(Config::simple("en", &["en", "fr"]));
+    for l in ["en", "fr"] {
+        tp.set_file(None, l, values.iter().map(|(k, v, _)| (k.to_string(), Val::RawJson(format!("\"{v}\"")))).collect());
+    }
+    let mut tc = Case::new(&format!("{prefix}_{}_tags", tier.name()), tp);
+    for (k, _, want) in &values {
+        for l in ["en", "fr"] {
+            tc.add(format!("td_string!({}, {k}, <b> = \"b\").to_string()", locale_variant(l)), format!("td_string {k} @{l} (tag look-alikes next to a component)"), want.to_string());
+        }
+    }
+    tc
+}
+
 fn c07_c08(tier: Tier, pid: &str) -> i32 {
     let rep = Reporter::new(pid, "L3", tier);
     // project: per-locale kinds differ; surplus and misspelt keys do not exist
@@ -2422,25 +2513,7 @@ fn c07_c08(tier: Tier, pid: &str) -> i32 {
     // the component is still found, the look-alike stays text
     let mut tags_case = None;
     if pid == "C08" {
-        let values: Vec<(&str, &str, &str)> = vec![
-            ("t0", "1 < 2 et 3 > 2 <b>x</b>", "1 < 2 et 3 > 2 <b>x</b>"),
-            ("t1", "<br/> then <b>x</b>", "<br/> then <b>x</b>"),
-            ("t2", "<a href=\\\"x\\\"> then <b>x</b>", "<a href=\"x\"> then <b>x</b>"),
-            ("t3", "</x> then <b>x</b> end", "</x> then <b>x</b> end"),
-            ("t4", "a <1> b <b>x</b>", "a <1> b <b>x</b>"),
-            ("t5", "<b>x</b> then 1 < 2", "<b>x</b> then 1 < 2"),
-        ];
-        let mut tp = Project::new(Config::simple("en", &["en", "fr"]));
-        for l in ["en", "fr"] {
-            tp.set_file(None, l, values.iter().map(|(k, v, _)| (k.to_string(), Val::RawJson(format!("\"{v}\"")))).collect());
-        }
-        let mut tc = Case::new(&format!("c08_{}_tags", tier.name()), tp);
-        for (k, _, want) in &values {
-            for l in ["en", "fr"] {
-                tc.add(format!("td_string!({}, {k}, <b> = \"b\").to_string()", locale_variant(l)), format!("td_string {k} @{l} (a tag look-alike next to a component)"), want.to_string());
-            }
-        }
-        tags_case = Some(tc);
+        tags_case = Some(tags_case_for("c08", tier));
     }
     if let Some(tc) = tags_case {
         let _ = execute_reporting(&rep, pid, vec![tc]);
@@ -2555,8 +2628,8 @@ fn resolve_fn(accept: Option<&'static str>) -> String {
 fn c15(tier: Tier) -> i32 {
     let rep = Reporter::new("C15", "L3", tier);
     // (declared locales, default)
-    let configs: Vec<(Vec<&str>, &str)> = vec![(vec!["fr", "de"], "en"), (vec!["fr", "de", "en"], "en"), (vec!["fr", "en", "de"], "en"), (vec!["en", "fr", "de"], "en"), (vec!["de"], "fr"), (vec!["en-GB", "fr-CA"], "pt-BR"), (vec!["en", "zh", "fr", "sr-Latn"], "en")];
-    let headers: Vec<Option<&str>> = vec![None, Some(""), Some("it"), Some("xx,yy"), Some("garbage!!"), Some("fr"), Some("de"), Some("en"), Some("it,de"), Some("de,fr"), Some("fr-CA,it"), Some("pt"), Some("en-US,en-GB"), Some("zh-Hant-TW,fr;q=0.8"), Some("zh-Hans"), Some("sr-Cyrl,zh-TW"), Some("sr-Latn-RS,fr")];
+    let configs: Vec<(Vec<&str>, &str)> = vec![(vec!["fr", "de"], "en"), (vec!["fr", "de", "en"], "en"), (vec!["fr", "en", "de"], "en"), (vec!["en", "fr", "de"], "en"), (vec!["de"], "fr"), (vec!["en-GB", "fr-CA"], "pt-BR"), (vec!["en", "zh", "fr", "sr-Latn"], "en"), (vec!["en", "de", "de-1996", "fr"], "en"), (vec!["ca-valencia", "de-CH-1996", "de-CH"], "en")];
+    let headers: Vec<Option<&str>> = vec![None, Some(""), Some("it"), Some("xx,yy"), Some("garbage!!"), Some("fr"), Some("de"), Some("en"), Some("it,de"), Some("de,fr"), Some("fr-CA,it"), Some("pt"), Some("en-US,en-GB"), Some("zh-Hant-TW,fr;q=0.8"), Some("zh-Hans"), Some("sr-Cyrl,zh-TW"), Some("sr-Latn-RS,fr"), Some("de-DE"), Some("de-1996"), Some("it,de-CH"), Some("ca"), Some("ca-ES-valencia,de"), Some("de-CH-1996")];
     let mut cases = vec![];
     for (ci, (locales, default)) in configs.iter().enumerate() {
         let mut p = Project::new(Config::simple(default, locales));
@@ -2571,8 +2644,8 @@ fn c15(tier: Tier) -> i32 {
             // form); an exact match wins; nothing matchable -> the default
             let want: Vec<String> = {
                 let mut out = vec![];
-                // (language, script, region); anything else in the tag makes it unusable for this small oracle
-                let parse = |t: &str| -> Option<(String, Option<String>, Option<String>)> {
+                // (language, script, region, variants); anything else in the tag makes it unusable for this small oracle
+                let parse = |t: &str| -> Option<(String, Option<String>, Option<String>, Vec<String>)> {
                     let t = t.split(';').next().unwrap_or("");
                     let mut it = t.split('-').peekable();
                     let lang = it.next()?.to_string();
@@ -2593,20 +2666,26 @@ fn c15(tier: Tier) -> i32 {
                             it.next();
                         }
                     }
-                    if it.next().is_some() {
-                        return None;
+                    let mut variants = vec![];
+                    for v in it {
+                        let ok = v.chars().all(|c| c.is_ascii_alphanumeric()) && ((5..=8).contains(&v.len()) || (v.len() == 4 && v.chars().next().is_some_and(|c| c.is_ascii_digit())));
+                        if !ok {
+                            return None;
+                        }
+                        variants.push(v.to_lowercase());
                     }
-                    Some((lang.to_lowercase(), script, region))
+                    variants.sort();
+                    Some((lang.to_lowercase(), script, region, variants))
                 };
                 if let Some(h) = h {
                     for entry in h.split(',') {
                         let Some(r) = parse(entry) else { continue };
-                        let sup: Vec<(String, (String, Option<String>, Option<String>))> = eff.iter().filter_map(|n| parse(n).map(|p| (n.clone(), p))).collect();
+                        let sup: Vec<(String, (String, Option<String>, Option<String>, Vec<String>))> = eff.iter().filter_map(|n| parse(n).map(|p| (n.clone(), p))).collect();
                         if let Some((n, _)) = sup.iter().find(|(_, p)| *p == r) {
                             out = vec![n.clone()];
                             break;
                         }
-                        let m: Vec<String> = sup.iter().filter(|(_, p)| p.0 == r.0 && (p.1.is_none() || p.1 == r.1) && (p.2.is_none() || p.2 == r.2)).map(|(n, _)| n.clone()).collect();
+                        let m: Vec<String> = sup.iter().filter(|(_, p)| p.0 == r.0 && (p.1.is_none() || p.1 == r.1) && (p.2.is_none() || p.2 == r.2) && (p.3.is_empty() || p.3 == r.3)).map(|(n, _)| n.clone()).collect();
                         if !m.is_empty() {
                             out = m;
                             break;
